@@ -144,6 +144,10 @@ def run(ctx, chk):
                        key="%s:null:%d" % (name, k))
             else:
                 ok = len(incs) == 1 and pa.ret == incs[0].res and incs[0].args[0][0] == "ld"
+                if not incs:
+                    # the increment written out as a field update of the returned element
+                    steps = [O.refcount_delta(off["refcount"], e) for e in pa.events if e.kind == "store" and ptr_key(e.args[0])[0] == pa.ret]
+                    ok = steps == [1] and isinstance(pa.ret, tuple) and pa.ret[0] == "ld"
                 chk.ob("C04.contract", "%s path %d: returns the element with exactly one new reference" % (name, k), ok,
                        "%s:%d" % (f.file, f.line), fn=name, key="%s:ref:%d" % (name, k),
                        detail="" if ok else "%d increments; returns %r" % (len(incs), pa.ret))
